@@ -6,14 +6,15 @@
    PROVED (all states, paths, fault indices): a fault that fires inside Mkdir, Remove, Chmod, Chtimes or the Rename
    of a regular file makes
    the operation return an error and leaves every record of the store as it was; a reported success of Mkdir,
-   Remove or Chmod implies the record is (not) in the store afterwards, whatever failed; the fault fires at most
+   Remove, Chmod, the Rename of a non-directory, a non-empty Write/WriteAt or OpenFile implies the record is (not)
+   in the store afterwards, whatever failed; the fault fires at most
    once, so everything afterwards is the fault-free model; the model's step function has no panic outcome
    (an implementation panic can therefore never agree with it).
    NOT proved: the same statement for OpenFile, WriteFile, Rename of directories, MkdirAll, RemoveAll and the handle
    operations -- there the code deliberately ignores failures of look-ups it did not need (the prefetched
    parent of an existing file, ancestors above the first existing directory), which the check's oracle
    treats as immaterial when result and store equal the failure-free ones. *)
-From HP Require Import Base.Prelude Base.Path KV.Types KV.FS KV.Handle KV.Run KV.Corr KV.FaultProofs KV.FaultRename KV.FaultEffects.
+From HP Require Import Base.Prelude Base.Path KV.Types KV.FS KV.Handle KV.Run KV.Corr KV.FaultProofs KV.FaultRename KV.FaultEffects KV.FaultEffects2.
 Open Scope N_scope.
 
 Theorem C14_mkdir_reports_the_failing_store_call : forall st p perm,
@@ -64,6 +65,29 @@ Theorem C14_chmod_success_means_stored : forall st p m, snd (kv_chmod st p m) = 
   exists rc, lookup (st_store (fst (kv_chmod st p m))) p = Some rc /\ N.land (r_mode rc) chmod_bits = N.land m chmod_bits.
 Proof. exact chmod_success_means_stored. Qed.
 Print Assumptions C14_chmod_success_means_stored.
+
+Theorem C14_file_rename_success_means_moved : forall fuel st o n,
+  (forall f, snd (get_file st o) = inl f -> is_dir (f_mode f) = false) -> o <> n ->
+  snd (kv_rename (Datatypes.S fuel) st o n) = None ->
+  let st' := fst (kv_rename (Datatypes.S fuel) st o n) in
+  lookup (st_store st') o = None /\ exists rc, lookup (st_store st') n = Some rc /\ is_dir (r_mode rc) = false.
+Proof. exact rename_file_success_means_moved. Qed.
+Print Assumptions C14_file_rename_success_means_moved.
+
+(* a write that reports success has stored a record under the handle's name that points at the handle's blob *)
+Theorem C14_write_success_means_stored : forall st h d off,
+  d <> [] -> snd (write_at st h d off) = None ->
+  exists rc, lookup (st_store (fst (fst (fst (write_at st h d off))))) (h_path h) = Some rc
+             /\ r_cell rc = h_cell h /\ r_mode rc = f_mode h.
+Proof. exact write_success_means_stored. Qed.
+Print Assumptions C14_write_success_means_stored.
+
+(* OpenFile hands out a handle only for a name the store holds afterwards (created, found, or truncated) *)
+Theorem C14_openfile_success_means_the_name_exists : forall st p flag perm f,
+  snd (kv_openfile st p flag perm) = inl f ->
+  lookup (st_store (fst (kv_openfile st p flag perm))) p <> None /\ h_path f = p.
+Proof. exact openfile_success_means_exists. Qed.
+Print Assumptions C14_openfile_success_means_the_name_exists.
 
 (* a rejected Set changes nothing and is reported; a failed Get is reported as a non-ENOENT error *)
 Theorem C14_rejected_set_is_reported : forall st p r,
